@@ -10,37 +10,46 @@ variables and never changes the state).
 /-- the outcome of evaluating a branch test in an environment -/
 def condRes (P : Prims) (env : Env) : CondT → Res Cause Bool
   | .always => .ok true
-  | .expr e => match evaluate P env e with
+  | .expr _ e => match evaluate P env e with
     | .ok v => .ok v.test
     | .err c => .err c
     | .panic w => .panic w
     | .unmodelled w => .unmodelled w
-  | .notExpr e => match evaluate P env e with
+  | .notExpr _ e => match evaluate P env e with
     | .ok v => .ok !v.test
     | .err c => .err c
     | .panic w => .panic w
     | .unmodelled w => .unmodelled w
 
-theorem evalCond_eq (P : Prims) (t : CondT) (s : RS) :
-    evalCond P t s = match condRes P s.env t with
+/-- the line of the tag a test belongs to: its evaluation errors are located there -/
+def CondT.line : CondT → Nat
+  | .always => 0
+  | .expr l _ => l
+  | .notExpr l _ => l
+
+/-- an evaluation error of a branch test, located at the branch's own tag -/
+def condErr (path : Bytes) (t : CondT) (c : Cause) : RawErr := .located (wrapError path (.plain c) ⟨t.line, true⟩)
+
+theorem evalCond_eq (P : Prims) (path : Bytes) (t : CondT) (s : RS) :
+    evalCond P path t s = match condRes P s.env t with
       | .ok b => .ret (b, s)
-      | .err c => .fail (.plain c)
+      | .err c => .fail (condErr path t c)
       | .panic w => .panic w
       | .unmodelled w => .unmodelled w := by
   cases t with
   | always => rfl
-  | expr e =>
-    simp only [evalCond, condRes, bind, M.bind, M.getEnv, Prog.bind]
+  | expr l e =>
+    simp only [evalCond, condRes, bind, M.bind, M.getEnv, Prog.bind, wrapFailAt, M.mapFail]
     cases evaluate P s.env e <;> rfl
-  | notExpr e =>
-    simp only [evalCond, condRes, bind, M.bind, M.getEnv, Prog.bind]
+  | notExpr l e =>
+    simp only [evalCond, condRes, bind, M.bind, M.getEnv, Prog.bind, wrapFailAt, M.mapFail]
     cases evaluate P s.env e <;> rfl
 
 theorem renderBranches_cons (c : RCtx) (t : CondT) (body : List Node) (rest : List (CondT × List Node)) (s : RS) :
     renderBranches c ((t, body) :: rest) s = match condRes c.P s.env t with
       | .ok true => renderBlockBody c body s
       | .ok false => renderBranches c rest s
-      | .err e => .fail (.plain e)
+      | .err e => .fail (condErr c.cfg.path t e)
       | .panic w => .panic w
       | .unmodelled w => .unmodelled w := by
   rw [renderBranches]
@@ -101,7 +110,7 @@ theorem if_none (c : RCtx) (s : RS) (bs : List (CondT × List Node))
 theorem if_cond_err (c : RCtx) (s : RS) (pre : List (CondT × List Node)) (t : CondT) (body : List Node)
     (later : List (CondT × List Node)) (e : Cause)
     (hpre : ∀ b ∈ pre, condRes c.P s.env b.1 = .ok false) (ht : condRes c.P s.env t = .err e) :
-    renderBranches c (pre ++ (t, body) :: later) s = .fail (.plain e) := by
+    renderBranches c (pre ++ (t, body) :: later) s = .fail (condErr c.cfg.path t e) := by
   induction pre with
   | nil => rw [List.nil_append, renderBranches_cons, ht]
   | cons b pre ih =>
@@ -113,11 +122,11 @@ theorem if_cond_err (c : RCtx) (s : RS) (pre : List (CondT × List Node)) (t : C
     `A`, `B` and state: `{% if e %}A{% else %}B{% endif %}` and
     `{% unless e %}B{% else %}A{% endunless %}` render identically. -/
 theorem unless_dual (c : RCtx) (line : Nat) (e : Expr) (A B : List Node) (s : RS) :
-    renderNode c (.ifB line [(.expr e, A), (.always, B)]) s =
-    renderNode c (.ifB line [(.notExpr e, B), (.always, A)]) s := by
-  have h : renderBranches c [(.expr e, A), (.always, B)] s = renderBranches c [(.notExpr e, B), (.always, A)] s := by
+    renderNode c (.ifB line [(.expr line e, A), (.always, B)]) s =
+    renderNode c (.ifB line [(.notExpr line e, B), (.always, A)]) s := by
+  have h : renderBranches c [(.expr line e, A), (.always, B)] s = renderBranches c [(.notExpr line e, B), (.always, A)] s := by
     rw [renderBranches_cons, renderBranches_cons, renderBranches_cons, renderBranches_cons]
-    simp only [condRes]
+    simp only [condRes, condErr, CondT.line]
     cases evaluate c.P s.env e with
     | ok v =>
       simp only
@@ -174,16 +183,16 @@ theorem whenMatches_eq (c : RCtx) (sel : GoVal) (es : List Expr) (s : RS) :
     | panic w => rfl
     | unmodelled w => rfl
 
-theorem renderCases_when (c : RCtx) (sel : GoVal) (es : List Expr) (body : List Node)
-    (rest : List (Option (List Expr) × List Node)) (s : RS) :
-    renderCases c sel ((some es, body) :: rest) s = match whenRes c.P s.env sel es with
+theorem renderCases_when (c : RCtx) (sel : GoVal) (line : Nat) (es : List Expr) (body : List Node)
+    (rest : List (Option (Nat × List Expr) × List Node)) (s : RS) :
+    renderCases c sel ((some (line, es), body) :: rest) s = match whenRes c.P s.env sel es with
       | .ok true => renderBlockBody c body s
       | .ok false => renderCases c sel rest s
-      | .err x => .fail (.plain x)
+      | .err x => .fail (.located (wrapError c.cfg.path (.plain x) ⟨line, true⟩))
       | .panic w => .panic w
       | .unmodelled w => .unmodelled w := by
   rw [renderCases]
-  simp only [bind, M.bind, whenMatches_eq]
+  simp only [bind, M.bind, wrapFailAt, M.mapFail, whenMatches_eq]
   cases whenRes c.P s.env sel es with
   | ok b => cases b <;> rfl
   | err x => rfl
@@ -192,10 +201,10 @@ theorem renderCases_when (c : RCtx) (sel : GoVal) (es : List Expr) (body : List 
 
 /-- **C10 (case).** `case` renders the first `when` clause one of whose values equals the
     subject (earlier clauses matching nothing)… -/
-theorem case_first_equal (c : RCtx) (sel : GoVal) (s : RS) (pre : List (List Expr × List Node)) (es : List Expr)
-    (body : List Node) (later : List (Option (List Expr) × List Node))
-    (hpre : ∀ b ∈ pre, whenRes c.P s.env sel b.1 = .ok false) (ht : whenRes c.P s.env sel es = .ok true) :
-    renderCases c sel (pre.map (fun b => (some b.1, b.2)) ++ (some es, body) :: later) s = renderBlockBody c body s := by
+theorem case_first_equal (c : RCtx) (sel : GoVal) (s : RS) (pre : List ((Nat × List Expr) × List Node)) (line : Nat) (es : List Expr)
+    (body : List Node) (later : List (Option (Nat × List Expr) × List Node))
+    (hpre : ∀ b ∈ pre, whenRes c.P s.env sel b.1.2 = .ok false) (ht : whenRes c.P s.env sel es = .ok true) :
+    renderCases c sel (pre.map (fun b => (some b.1, b.2)) ++ (some (line, es), body) :: later) s = renderBlockBody c body s := by
   induction pre with
   | nil => rw [List.map_nil, List.nil_append, renderCases_when, ht]
   | cons b pre ih =>
@@ -203,9 +212,9 @@ theorem case_first_equal (c : RCtx) (sel : GoVal) (s : RS) (pre : List (List Exp
     exact ih (fun x hx => hpre x (by simp [hx]))
 
 /-- …otherwise the `else` clause… -/
-theorem case_else (c : RCtx) (sel : GoVal) (s : RS) (pre : List (List Expr × List Node)) (body : List Node)
-    (later : List (Option (List Expr) × List Node))
-    (hpre : ∀ b ∈ pre, whenRes c.P s.env sel b.1 = .ok false) :
+theorem case_else (c : RCtx) (sel : GoVal) (s : RS) (pre : List ((Nat × List Expr) × List Node)) (body : List Node)
+    (later : List (Option (Nat × List Expr) × List Node))
+    (hpre : ∀ b ∈ pre, whenRes c.P s.env sel b.1.2 = .ok false) :
     renderCases c sel (pre.map (fun b => (some b.1, b.2)) ++ (none, body) :: later) s = renderBlockBody c body s := by
   induction pre with
   | nil => rw [List.map_nil, List.nil_append, renderCases]
@@ -214,8 +223,8 @@ theorem case_else (c : RCtx) (sel : GoVal) (s : RS) (pre : List (List Expr × Li
     exact ih (fun x hx => hpre x (by simp [hx]))
 
 /-- …otherwise nothing. -/
-theorem case_none (c : RCtx) (sel : GoVal) (s : RS) (pre : List (List Expr × List Node))
-    (hpre : ∀ b ∈ pre, whenRes c.P s.env sel b.1 = .ok false) :
+theorem case_none (c : RCtx) (sel : GoVal) (s : RS) (pre : List ((Nat × List Expr) × List Node))
+    (hpre : ∀ b ∈ pre, whenRes c.P s.env sel b.1.2 = .ok false) :
     renderCases c sel (pre.map (fun b => (some b.1, b.2))) s = .ret (.done, s) := by
   induction pre with
   | nil => rw [List.map_nil, renderCases]; rfl
@@ -224,8 +233,8 @@ theorem case_none (c : RCtx) (sel : GoVal) (s : RS) (pre : List (List Expr × Li
     exact ih (fun x hx => hpre x (by simp [hx]))
 
 /-! Non-vacuity: literal conditions `false`, `nil`, `0` — the third is truthy. -/
-example (P : Prims) (env : Env) : condRes P env (.expr (.lit (.bool false))) = .ok false := rfl
-example (P : Prims) (env : Env) : condRes P env (.expr (.lit .nil)) = .ok false := rfl
-example (P : Prims) (env : Env) : condRes P env (.expr (.lit (.int .int 0))) = .ok true := rfl
-example (P : Prims) (env : Env) : condRes P env (.expr (.lit (.str []))) = .ok true := rfl
-example (P : Prims) (env : Env) : condRes P env (.expr (.lit (.slice .any []))) = .ok true := rfl
+example (P : Prims) (env : Env) : condRes P env (.expr 1 (.lit (.bool false))) = .ok false := rfl
+example (P : Prims) (env : Env) : condRes P env (.expr 1 (.lit .nil)) = .ok false := rfl
+example (P : Prims) (env : Env) : condRes P env (.expr 1 (.lit (.int .int 0))) = .ok true := rfl
+example (P : Prims) (env : Env) : condRes P env (.expr 1 (.lit (.str []))) = .ok true := rfl
+example (P : Prims) (env : Env) : condRes P env (.expr 1 (.lit (.slice .any []))) = .ok true := rfl
